@@ -17,6 +17,15 @@ import (
 // relative round-off error in big.Float precision numbers
 var dpSafeEpsilon = 1e-15
 
+const (
+	// diffPrec is the number of mantissa bits that holds the difference of
+	// any two finite float64 values exactly (they are multiples of 2^-1074
+	// below 2^1025).
+	diffPrec = 2100
+	// prodPrec holds the product of two such differences exactly.
+	prodPrec = 2 * diffPrec
+)
+
 // OrientationIndex returns the index of the direction of point relative
 // to a vector specified by vectorOrigin-vectorEnd
 //
@@ -37,16 +46,18 @@ func OrientationIndex(vectorOrigin, vectorEnd, point geom.Coord) orientation.Typ
 
 	var dx1, dy1, dx2, dy2 big.Float
 
-	// normalize coordinates
-	dx1.SetFloat64(vectorEnd[0]).Add(&dx1, big.NewFloat(-vectorOrigin[0]))
-	dy1.SetFloat64(vectorEnd[1]).Add(&dy1, big.NewFloat(-vectorOrigin[1]))
-	dx2.SetFloat64(point[0]).Add(&dx2, big.NewFloat(-vectorEnd[0]))
-	dy2.SetFloat64(point[1]).Add(&dy2, big.NewFloat(-vectorEnd[1]))
+	// normalize coordinates. A zero big.Float takes the precision of its first
+	// operand (53 bits), which would round every step below like float64
+	// arithmetic, so give the receivers enough precision to be exact.
+	dx1.SetPrec(diffPrec).SetFloat64(vectorEnd[0]).Add(&dx1, big.NewFloat(-vectorOrigin[0]))
+	dy1.SetPrec(diffPrec).SetFloat64(vectorEnd[1]).Add(&dy1, big.NewFloat(-vectorOrigin[1]))
+	dx2.SetPrec(diffPrec).SetFloat64(point[0]).Add(&dx2, big.NewFloat(-vectorEnd[0]))
+	dy2.SetPrec(diffPrec).SetFloat64(point[1]).Add(&dy2, big.NewFloat(-vectorEnd[1]))
 
 	// calculate determinant.  Calculation takes place in dx1 for performance
-	dx1.Mul(&dx1, &dy2)
-	dy1.Mul(&dy1, &dx2)
-	dx1.Sub(&dx1, &dy1)
+	dx1.SetPrec(prodPrec).Mul(&dx1, &dy2)
+	dy1.SetPrec(prodPrec).Mul(&dy1, &dx2)
+	dx1.SetPrec(prodPrec+1).Sub(&dx1, &dy1)
 
 	return orientationBasedOnSignForBig(dx1)
 }
